@@ -271,6 +271,64 @@ MMod(s, t) ==
             ELSE IF (r.m < 0) # (D(t).m < 0) THEN Def(<<Tok(DAdd(r, D(t)))>>)
             ELSE Def(<<Tok(r)>>)
 
+(* deg / rad as lmathlib.c defines them: x / RADIANS_PER_DEGREE and         *)
+(* x * RADIANS_PER_DEGREE with the double constant c = PI / 180.0.  A       *)
+(* 53-bit quotient cannot be computed in TLC's 32-bit integers, so the      *)
+(* observed result is JUDGED: it must be the correctly rounded quotient /   *)
+(* product (|error| <= 1/2 ulp, a tie only with an even mantissa).  Big     *)
+(* naturals are little-endian sequences of limbs in base 2^13.              *)
+BB == 8192
+RECURSIVE NormB(_, _)
+NormB(s, carry) ==
+    IF s = <<>> THEN (IF carry = 0 THEN <<>> ELSE <<carry % BB>> \o NormB(<<>>, carry \div BB))
+    ELSE LET v == s[1] + carry IN <<v % BB>> \o NormB(Tail(s), v \div BB)
+BigOf(n) == NormB(<<n>>, 0)                                  \* n >= 0
+RECURSIVE ConvSum(_, _, _, _)
+ConvSum(a, b, k, i) ==                                        \* sum of a[i] * b[k - i + 1]
+    IF i > Len(a) THEN 0
+    ELSE (IF k - i + 1 >= 1 /\ k - i + 1 <= Len(b) THEN a[i] * b[k - i + 1] ELSE 0) + ConvSum(a, b, k, i + 1)
+BigMul(a, b) == IF a = <<>> \/ b = <<>> THEN <<>>
+                ELSE NormB([k \in 1..(Len(a) + Len(b) - 1) |-> ConvSum(a, b, k, 1)], 0)
+BigAdd(a, b) == NormB([k \in 1..(IF Len(a) > Len(b) THEN Len(a) ELSE Len(b)) |->
+                          (IF k <= Len(a) THEN a[k] ELSE 0) + (IF k <= Len(b) THEN b[k] ELSE 0)], 0)
+BigShl(a, k) == NormB([i \in 1..(k \div 13) |-> 0] \o [i \in 1..Len(a) |-> a[i] * (2 ^ (k % 13))], 0)   \* a * 2^k
+RECURSIVE BigTrim(_)
+BigTrim(a) == IF a # <<>> /\ a[Len(a)] = 0 THEN BigTrim(SubSeq(a, 1, Len(a) - 1)) ELSE a
+RECURSIVE BigLeT(_, _, _)
+BigLeT(a, b, k) == IF k = 0 THEN TRUE ELSE IF a[k] # b[k] THEN a[k] < b[k] ELSE BigLeT(a, b, k - 1)
+BigLe(a, b) == LET x == BigTrim(a)  y == BigTrim(b)
+               IN IF Len(x) # Len(y) THEN Len(x) < Len(y) ELSE BigLeT(x, y, Len(x))
+BigEq(a, b) == BigTrim(a) = BigTrim(b)
+
+(* the double PI / 180.0 = 5030569068109113 * 2^-58 = 0.017453292519943295 *)
+RadPerDegM == <<7481, 4756, 4520, 958, 1>>
+RadPerDegE == -58
+PiM == <<3352, 545, 7893, 4675, 1>>                          \* math.pi = 7074237752028440 * 2^-51
+PiE == -51
+
+(* |A * 2^ea - B * 2^eb| <= H * 2^eh, with equality only if tieOK; all big naturals *)
+WithinHalf(A, ea, B, eb, H, eh, tieOK) ==
+    LET e0 == IF ea <= eb THEN (IF ea <= eh THEN ea ELSE eh) ELSE (IF eb <= eh THEN eb ELSE eh)
+    IN IF ea - e0 > 400 \/ eb - e0 > 400 \/ eh - e0 > 400 THEN FALSE
+       ELSE LET a == BigShl(A, ea - e0)  b == BigShl(B, eb - e0)  h == BigShl(H, eh - e0)
+            IN /\ BigLe(a, BigAdd(b, h)) /\ BigLe(b, BigAdd(a, h))
+               /\ ((BigEq(a, BigAdd(b, h)) \/ BigEq(b, BigAdd(a, h))) => tieOK)
+
+(* r = <<"w", neg, limbs of the 53-bit mantissa M (2^52 <= M < 2^53), e>>: the double (-1)^neg * M * 2^e; *)
+(* x a finite non-zero token.  Is r the correctly rounded x / c (deg) resp. x * c (rad)?                  *)
+DegRadOK(isDeg, x, r) ==
+    LET n == NormME(D(x).m, D(x).e)
+        X == BigOf(Abs(n.m))
+        M == r[3]
+        even == M[1] % 2 = 0
+    IN /\ r[2] = (n.m < 0)
+       /\ Len(M) = 5 /\ M[5] = 1                              \* 2^52 <= M < 2^53
+       /\ IF isDeg
+          THEN (* |x - r c| <= c ulp(r) / 2 :  2 X 2^ex  vs  2 M c 2^(er+ec)  within  c 2^(er+ec) *)
+               WithinHalf(X, n.e + 1, BigMul(BigAdd(M, M), RadPerDegM), r[4] + RadPerDegE, RadPerDegM, r[4] + RadPerDegE, even)
+          ELSE (* |r - x c| <= ulp(r) / 2 :  M 2^er  vs  X c 2^(ex+ec)  within  2^(er-1) *)
+               WithinHalf(M, r[4], BigMul(X, RadPerDegM), n.e + RadPerDegE, <<1>>, r[4] - 1, even)
+
 (* max / min over all arguments (no NaN arguments) *)
 RECURSIVE MFold(_, _, _)
 MFold(ts, k, takeLess) ==
